@@ -143,9 +143,22 @@ def run(ctx):
     fmt = [n for n in walk_local(strm.node) if isinstance(n, ast.Constant) and isinstance(n.value, str) and "{n:" in n.value]
     ctx.ob("C13.EMIT", strm, "nth weekdays are written with an explicit sign followed by the two-letter day ({n:+d}{wday})",
            len(fmt) == 1 and fmt[0].value == "{n:+d}{wday}", construct="nth weekday format", detail=str([f.value for f in fmt]))
-    byemit = [n for n in cfg.live_nodes() if n.kind == "stmt" and "partfmt.format" in src(n.ast)]
+    # the loop over the (label, key) pairs: whatever it appends is guarded by the truthiness of the value fetched for the key
+    ploop = [n for n in walk_local(strm.node) if isinstance(n, ast.For) and isinstance(n.iter, (ast.List, ast.Tuple)) and n.iter.elts and all(
+        isinstance(e, ast.Tuple) and len(e.elts) == 2 and all(isinstance(x, ast.Constant) for x in e.elts) for e in n.iter.elts)]
+    okb = False
+    det = "pair loop not found"
+    if len(ploop) == 1 and isinstance(ploop[0].target, ast.Tuple) and len(ploop[0].target.elts) == 2:
+        keyvar = src(ploop[0].target.elts[1])
+        inside = set(id(x) for st_ in ploop[0].body for x in ast.walk(st_))
+        fetched = [src(t) for n in walk_local(strm.node) if isinstance(n, ast.Assign) and id(n) in inside and isinstance(n.value, ast.Call)
+                   and isinstance(n.value.func, ast.Attribute) and n.value.func.attr == "get" and [src(a) for a in n.value.args] == [keyvar] for t in n.targets]
+        emits = [n for n in cfg.live_nodes() if n.kind == "stmt" and id(n.ast) in inside and isinstance(n.ast, ast.Expr) and isinstance(n.ast.value, ast.Call)
+                 and isinstance(n.ast.value.func, ast.Attribute) and n.ast.value.func.attr == "append"]
+        okb = len(fetched) == 1 and len(emits) == 1 and (fetched[0], True) in facts.at(emits[0])
+        det = "fetched=%s emits=%d" % (fetched, len(emits))
     ctx.ob("C13.EMIT", strm, "a BY-part is emitted iff its recorded value is non-empty (derived defaults are recorded as None)",
-           len(byemit) == 1 and ("value", True) in facts.at(byemit[0]), construct="emit BYxxx")
+           okb, construct="emit BYxxx", detail="" if okb else det, analysis="must-hold branch facts in the (label, key) loop")
     # the sibling consumer of count tests identity too
     it = prog.method(rr.qualname, "_iter", "C13.EMIT")
     cnt_tests = [src(n.ast) for n in ctx.cfg(it).live_nodes() if n.kind == "branch" and "count" in src(n.ast) and "None" in src(n.ast)]
@@ -168,27 +181,39 @@ def run(ctx):
            detail="" if tok else "the scan must be `range(len(<token>))`: a shorter bound truncates multi-digit ordinals")
     tok = tok or "wday"
     ivar = src(lp.ast.target)
-    nd = [n for n in hcfg.live_nodes() if n.kind == "stmt" and isinstance(n.ast, ast.Assign) and isinstance(n.ast.value, (ast.BoolOp, ast.Subscript))
-          and ("%s[:%s]" % (tok, ivar)) in src(n.ast.value).replace(" ", "")]
-    wdn = [n for n in hcfg.live_nodes() if n.kind == "stmt" and isinstance(n.ast, ast.Assign) and src(n.ast.targets[0]) == "w"
-           and ("len(%s)" % tok, True) in hfacts.at(n)]
-    okn = len(nd) == 1
-    okw = len(wdn) == 1 and src(wdn[0].ast.value).replace(" ", "") == "%s[%s:]" % (tok, ivar)
-    ctx.ob("C13.WDAY", hb, "the ordinal is the prefix %s[:%s] of the token" % (tok, ivar), okn, construct="ordinal slice")
-    ctx.ob("C13.WDAY", hb, "the weekday code is the complementary suffix %s[%s:] (same index as the ordinal)" % (tok, ivar), okw,
-           construct="weekday slice: %s" % (src(wdn[0].ast.value) if wdn else "?"),
-           detail="" if okw else "prefix and suffix must partition the token at the index where the scan stopped")
-    brk = [n for n in hcfg.live_nodes() if n.kind == "branch" and "not in" in src(n.ast) and tok in src(n.ast)]
+    from ..rules_common import value_set
+    brk = [n for n in hcfg.live_nodes() if n.kind == "branch" and any(isinstance(o, (ast.NotIn, ast.In)) for x in ast.walk(n.ast) if isinstance(x, ast.Compare) for o in x.ops)
+           and "0123456789" in src(n.ast)]
     ctx.ob("C13.WDAY", hb, "the scan stops at the first character that is not a sign or digit", len(brk) == 1 and
-           src(brk[0].ast).replace(" ", "") == "%s[%s]notin'+-0123456789'" % (tok, ivar), construct="scan stop test: %s" % (src(brk[0].ast) if brk else "?"))
-    ap = [n for n in hcfg.live_nodes() if n.kind == "stmt" and "l.append" in src(n.ast)]
-    ctx.ob("C13.WDAY", hb, "the day is built as weekdays[_weekday_map[w]](n)", len(ap) == 1 and
-           src(ap[0].ast).replace(" ", "") == "l.append(weekdays[self._weekday_map[w]](n))", construct="l.append(...)")
-    par = [n for n in hcfg.live_nodes() if n.kind == "stmt" and isinstance(n.ast, ast.Assign) and src(n.ast.targets[0]) == "n" and "splt" in src(n.ast.value)]
-    ctx.ob("C13.WDAY", hb, "the MO(+1) form takes the ordinal from between the parentheses", len(par) == 1 and src(par[0].ast.value).replace(" ", "") == "int(splt[1][:-1])",
-           construct="n = int(splt[1][:-1])")
-    emp = [n for n in hcfg.live_nodes() if n.kind == "stmt" and isinstance(n.ast, ast.Raise)]
-    ctx.ob("C13.WDAY", hb, "an empty BYDAY element raises ValueError", bool(emp) and all(src(r.ast.exc).startswith("ValueError") for r in emp), construct="raise on empty element")
+           src(brk[0].ast).replace(" ", "") in ("%s[%s]notin'+-0123456789'" % (tok, ivar), "not%s[%s]in'+-0123456789'" % (tok, ivar)),
+           construct="scan stop test: %s" % (src(brk[0].ast) if brk else "?"))
+    # the value appended for each item: weekdays[self._weekday_map[<code>]](<ordinal>)
+    ap = []
+    for n in hcfg.live_nodes():
+        if n.kind == "stmt" and isinstance(n.ast, ast.Expr) and isinstance(n.ast.value, ast.Call) and isinstance(n.ast.value.func, ast.Attribute) \
+                and n.ast.value.func.attr == "append" and len(n.ast.value.args) == 1:
+            a0 = n.ast.value.args[0]
+            if isinstance(a0, ast.Call) and isinstance(a0.func, ast.Subscript) and src(a0.func.value) == "weekdays" and len(a0.args) == 1 \
+                    and isinstance(a0.func.slice, ast.Subscript) and src(a0.func.slice.value) == "self._weekday_map":
+                ap.append((n, a0.func.slice.slice, a0.args[0]))
+    ctx.ob("C13.WDAY", hb, "the day is built as weekdays[_weekday_map[w]](n)", len(ap) == 1, construct="append(weekdays[self._weekday_map[w]](n))")
+    if len(ap) == 1:
+        n_ap, code_e, ord_e = ap[0]
+
+        def canon_(t):
+            return re.sub(r"\b%s\b" % re.escape(ivar), "I", re.sub(r"\b%s\b" % re.escape(tok), "T", t)).replace(" ", "").replace('"', "'")
+        codes = set(canon_(t) for t in value_set(ctx, hb, n_ap, code_e))
+        ords = set(canon_(t) for t in value_set(ctx, hb, n_ap, ord_e))
+        okw = codes == {"T[I:]", "T.split('(')[0]"}
+        ctx.ob("C13.WDAY", hb, "the weekday code is the suffix T[i:] at the index where the scan stopped (+1MO form) or the text before '(' (MO(+1) form)", okw,
+               construct="weekday code values", detail="" if okw else "code can be: %s" % sorted(codes), analysis="reaching definitions expanded to value sets")
+        want_ord = {"int(T[:I]orNone)", "T[:I]orNone", "int(T.split('(')[1][:-1])"}
+        oko = ords == want_ord
+        ctx.ob("C13.WDAY", hb, "the ordinal is the complementary prefix T[:i] (as int when non-empty, else None) or the text between the parentheses", oko,
+               construct="ordinal values", detail="" if oko else "ordinal can be: %s" % sorted(ords), analysis="reaching definitions expanded to value sets")
+    emp = [n for n in hcfg.live_nodes() if n.kind == "stmt" and isinstance(n.ast, ast.Raise) and src(n.ast.exc).startswith("ValueError")]
+    fl = [any((t.replace(" ", "") in ("len(%s)" % tok, tok) and not tv) for t, tv in hfacts.at(n)) for n in emp]
+    ctx.ob("C13.WDAY", hb, "an empty BYDAY item is rejected with ValueError", len(emp) == 1 and all(fl), construct="empty item rejection")
 
     # ---------------------------------------------------------------- C13.TZID
     pr = prog.method(rs.qualname, "_parse_rfc", "C13.TZID")
